@@ -71,7 +71,7 @@ def reduce_failure(w, text, indent, kind):
         if "res" not in r or not r["res"][0].get("ir"):
             return False
         return fp_verdict(w, t, indent)[0] == kind
-    core = tokseq.ddmin(toks, fails, max_calls=400)
+    core = tokseq.ddmin(toks, fails, max_calls=2500)
     return "".join(core)
 
 
@@ -86,11 +86,27 @@ def features(core):
         f.append("block-comment")
     if re.search(r"(//|#)", core) and "line-comment-before-closing-bracket" not in f:
         f.append("line-comment")
-    if "|||" in core:
-        f.append("text-block")
+    if not f and nested_statement(core):
+        f.append("local-or-assert-statement-inside-brackets")
+    if "|||" in core and not f:
+        f.append("crlf-text-block" if "\r\n" in core else "text-block")
     if not f:
         f.append("no-comment")
     return "+".join(f)
+
+
+def nested_statement(core):
+    """is there a `local ...;` / `assert ...;` expression at bracket depth > 0 ?"""
+    depth = 0
+    for m in re.finditer(r"[(\[{]|[)\]}]|\b(?:local|assert)\b", re.sub(r"'[^']*'|\"[^\"]*\"", "''", core)):
+        t = m.group(0)
+        if t in "([{":
+            depth += 1
+        elif t in ")]}":
+            depth -= 1
+        elif depth > 0:
+            return True
+    return False
 
 
 def fixed_point(acc, w, build, text, origin):
@@ -112,7 +128,10 @@ def fixed_point(acc, w, build, text, origin):
             core = reduce_failure(w, text, indent, kind) if acc.n.get("reduced", 0) < 150 else text
             acc.inc("reduced")
             k2, d2 = fp_verdict(w, core, indent)
-            acc.violation({"oracle": kind, "features": features(core)},
+            sig = {"oracle": kind, "features": features(core)}
+            if isinstance(d2, dict) and "converges_on_third_pass" in d2:
+                sig["converges_on_third_pass"] = d2["converges_on_third_pass"]
+            acc.violation(sig,
                           {"text": text, "core": core, "indent": indent, "build": build,
                            "core_result": d2, "result": det})
     return
@@ -156,8 +175,12 @@ def shard(idx, n, tier, seed, builds, cli):
                     fixed_point(acc, w, build, t, "token-seq")
                 corpus = fmtlib.corpus() + fmtlib.wide_programs()
                 mine = runner.chunks(corpus, idx, n)
+                for t in fmtlib.generated(seed, idx, (4000 if tier == "quick" else 80000) // n):
+                    fixed_point(acc, w, build, t, "generated")
                 for t in mine:
                     fixed_point(acc, w, build, t, "corpus")
+                    if "\n" in t:
+                        fixed_point(acc, w, build, t.replace("\n", "\r\n"), "corpus-crlf")
                     toks = w.call({"op": "lex", "code": t}).get("tokens", [])
                     for d, ncomments in fmtlib.decorate(t, toks, rng, 6 if tier == "quick" else 40):
                         fixed_point(acc, w, build, d, "decorated")
